@@ -435,7 +435,11 @@ func vLoopGen(r *vrng) *vCaseL {
 				if r.intn(4) == 0 {
 					out = -1
 				}
-				l = append(l, vHtlc{fresh, inc, out, height + d + r.rng(-1, 3), 50 + fresh})
+				exp := height + d + r.rng(-1, 3)
+				if exp < 0 {
+					exp = 0 // RefundTimeout is a uint32
+				}
+				l = append(l, vHtlc{fresh, inc, out, exp, 50 + fresh})
 				if r.bool() {
 					c.Env.Fwd = append(c.Env.Fwd, fresh)
 				}
